@@ -1,7 +1,7 @@
 #!/bin/sh
 # tools/seed_vs_checks.sh <Cxx> <A|B> <check ids...>  -- run the given checks against the seeded change (scratch copy)
 P="$1"; X="$2"; shift 2
-D=/tmp/seed/$P/verify_$X/patch_on_head.diff
+D=${SEED_ROOT:-/tmp/seed}/$P/verify_$X/patch_on_head.diff
 [ -s "$D" ] || D=/verif/seeded/$P-$X/patch.diff
 for c in "$@"; do
   r=$(VERIF_SHRINK_CAP=3 sh /verif/selftest/mutant.sh "$D" "$c" quick | cut -c1-300)
